@@ -10,7 +10,7 @@ incremental.
 import os, re, sys
 
 REPO = os.environ.get("VERIF_REPO", "/repo")
-OUT = os.path.join(os.path.dirname(os.path.abspath(__file__)), "..", "coq", "Gen", "Constants.v")
+OUT = os.environ.get("VERIF_CONST_OUT", os.path.join(os.path.dirname(os.path.abspath(__file__)), "..", "coq", "Gen", "Constants.v"))
 
 
 class Missing(Exception):
@@ -226,7 +226,7 @@ def render(c):
     return "\n".join(lines)
 
 
-STATUS = os.path.join(os.path.dirname(os.path.abspath(__file__)), "..", ".build", "translator_status.json")
+STATUS = os.environ.get("VERIF_CONST_STATUS", os.path.join(os.path.dirname(os.path.abspath(__file__)), "..", ".build", "translator_status.json"))
 
 
 def main():
